@@ -330,11 +330,15 @@ def rule_c(repo, chk):
     f = mgr.methods['_fire']
     g = f.cfg()
     apps = [n for n in g.nodes if n.kind == 'stmt' and any(r == 'self._queue' for r, _c in pat.method_calls(n.ast, 'append'))]
+    # (or hands the event to the _fire of the tree this manager has meanwhile been registered in)
+    apps += [n for n in g.nodes if n.kind == 'stmt' and isinstance(n.ast, ast.Return) and isinstance(n.ast.value, ast.Call) and src(n.ast.value.func) == 'self.root._fire'
+             and [src(a) for a in n.ast.value.args[:2]] == f.params[1:3]]
     p = Q.escapes(g, [g.entry], lambda n: n in apps)
     chk.ob('c', f.ref, 'every path of _fire appends the event to the queue', p is None and bool(apps), loc(f, f.node),
            path=pat.path_lines(p) if p else None, discr='always-append')
     for a in apps:
-        c = [c for r, c in pat.method_calls(a.ast, 'append') if r == 'self._queue'][0]
+        cs = [c for r, c in pat.method_calls(a.ast, 'append') if r == 'self._queue'] or [a.ast.value]       # (the forwarding call)
+        c = cs[0]
         ok = [src(x) for x in c.args] == f.params[1:4]
         chk.ob('c', f.ref, 'the queue receives (event, channel, priority) unchanged', ok, loc(f, c), detail=f'`{src(c)}`',
                discr='append-args')
